@@ -52,6 +52,10 @@ fn hash_str(s: &str) -> u64 {
 fn write_replay(prop: &str, v: &ViolationRec, dir: &str) -> String {
     let key = format!("{}|{:?}|{}", v.machine, v.ops, profile_name());
     let path = format!("{dir}/{prop}-{}-{:016x}.json", profile_name(), hash_str(&key));
+    // a handful of the longest sampled histories across machines
+    let mut top_samples = samples.clone();
+    top_samples.sort_by_key(|x| std::cmp::Reverse(x.len()));
+    top_samples.truncate(8);
     let body = json!({
         "property": prop,
         "profile": profile_name(),
@@ -128,10 +132,8 @@ fn cmd_run(prop: &str, tier: &str, out: &str, replay_dir: &str) -> i32 {
         for c in &r.caps {
             caps.push(format!("{}: {}", r.machine, c));
         }
-        if samples.len() < 6 {
-            if let Some(s) = r.samples.first() {
-                samples.push(format!("{}: {}", r.machine, s));
-            }
+        if let Some(s) = r.samples.last() {
+            samples.push(format!("{}: {}", r.machine, s));
         }
         for v in &r.violations {
             let path = write_replay(prop, v, replay_dir);
@@ -146,6 +148,10 @@ fn cmd_run(prop: &str, tier: &str, out: &str, replay_dir: &str) -> i32 {
             "violations": r.violations.len(), "wall_s": (r.wall_s * 1000.0).round() / 1000.0,
         }));
     }
+    // a handful of the longest sampled histories across machines
+    let mut top_samples = samples.clone();
+    top_samples.sort_by_key(|x| std::cmp::Reverse(x.len()));
+    top_samples.truncate(8);
     let body = json!({
         "property": prop,
         "tier": tier,
@@ -160,7 +166,7 @@ fn cmd_run(prop: &str, tier: &str, out: &str, replay_dir: &str) -> i32 {
         "exhaustive": exhaustive,
         "caps": caps,
         "tags": tags,
-        "samples": samples,
+        "samples": top_samples,
         "machines": machines,
         "violations": viol,
         "machinery_errors": errors,
